@@ -288,6 +288,21 @@ def runEnc (arch dump : String) : String :=
     | .error => "err - - -"
     | .panic => "panic - - -"
 
+/-- `enc2 <arch> <proto> <file dump>`: Encode, set the protocol version of the File that came back
+    (whose header now carries the data size and CRCs just written) to `proto`, Encode again -/
+def runEnc2 (arch proto dump : String) : String :=
+  match parseFile P dump, parseNat? proto with
+  | some f, some pv =>
+    match encode P (archOf arch) f with
+    | .ok _ f1 =>
+      match encode P (archOf arch) { f1 with hdr := { f1.hdr with proto := pv } } with
+      | .ok bs f2 => s!"ok {hexOf bs} H{f2.hdr.render} C{f2.crc}"
+      | .error => "err - - -"
+      | .panic => "panic - - -"
+    | .error => "err1 - - -"
+    | .panic => "panic1 - - -"
+  | _, _ => "bad-file"
+
 /-- `rt <arch> <file dump>`: Encode, then Decode of the written bytes -/
 def runRt (arch dump : String) : String :=
   match parseFile P dump with
@@ -373,6 +388,7 @@ def runLine1 (line : String) : String :=
   | ["strs", t, lo, hi] => runStrs t lo hi
   | ["encrep", _, arch, dump] => runEncRep arch dump
   | ["enc", arch, dump] => runEnc arch dump
+  | ["enc2", arch, proto, dump] => runEnc2 arch proto dump
   | ["rt", arch, dump] => runRt arch dump
   | ["c07", arch, hex] => runC07 arch hex
   | "hdr" :: rest => runHdr rest
